@@ -211,12 +211,20 @@ async fn cell<K: Kind>(addr: SocketAddr, set: Arc<CertSet>, topic: String, comp:
         publisher.send(it.clone()).await.map_err(|e| fail("send-error", &class, format!("publisher.send failed: {e}")))?;
     }
     publisher.finish().await.map_err(|e| fail("finish-error", &class, format!("publisher.finish failed: {e}")))?;
-    // collect
+    // collect. Each next() runs in a task of its own, so that it is re-polled only when the
+    // subscriber's waker fires: a poll_next that answers Pending without arranging a wake-up
+    // shows as a missing item instead of being rescued by this harness's timer.
     let mut got: Vec<K::Item> = Vec::new();
-    loop {
+    let mut sub = Some(sub);
+    while let Some(mut s) = sub.take() {
         let wait = if got.len() < n { ARRIVAL } else { QUIET };
-        match tokio::time::timeout(wait, sub.next()).await {
-            Ok(Some(Ok(i))) => {
+        let mut h = tokio::spawn(async move {
+            let r = s.next().await;
+            (s, r)
+        });
+        match tokio::time::timeout(wait, &mut h).await {
+            Ok(Ok((s, Some(Ok(i))))) => {
+                sub = Some(s);
                 if !K::is_warm(&i) {
                     got.push(i);
                     if got.len() > n + 4 {
@@ -224,9 +232,13 @@ async fn cell<K: Kind>(addr: SocketAddr, set: Arc<CertSet>, topic: String, comp:
                     }
                 }
             }
-            Ok(Some(Err(e))) => return Err(fail("subscriber-error", &class, format!("subscriber yielded an error: {e}"))),
-            Ok(None) => break,
-            Err(_) => break,
+            Ok(Ok((_, Some(Err(e))))) => return Err(fail("subscriber-error", &class, format!("subscriber yielded an error: {e}"))),
+            Ok(Ok((_, None))) => break,
+            Ok(Err(e)) => return Err(fail("setup", "task", e.to_string())),
+            Err(_) => {
+                h.abort();
+                break;
+            }
         }
     }
     let _ = warm.finish().await;
